@@ -50,6 +50,12 @@ def pick_position(rnd, prjname, k):
     """strata: hemisphere x distance from CM x latitude band (k cycles through them)."""
     hemi = 1 if (k % 2) else -1
     band = (k // 2) % 4
+    if k % 23 == 11:
+        # exactly on the equator (+0.0 and -0.0): the hemisphere label / false northing edge
+        lon = rnd.uniform(138.5, 155.5) if prjname == "isg" else rnd.uniform(-179.0, 179.0)
+        if prjname != "isg" and (abs((lon + 180.0) % 6.0) < 1e-3 or abs((lon + 180.0) % 6.0 - 6.0) < 1e-3):
+            lon += 0.01
+        return (0.0 if k % 2 else -0.0), lon
     if prjname == "isg":
         lo, hi = ISG_BANDS[0] if (k // 8) % 5 else ISG_BANDS[1]
         lon = rnd.uniform(lo + 1e-3, hi - 1e-3)
@@ -125,7 +131,7 @@ class Runner:
 
     def run_trace(self, st, labels, cfgname, lat, lon):
         E, P = self.ell[cfgname[0]], self.prj[cfgname[1]]
-        tr = {"cfg": {"e": cfgname[0], "p": cfgname[1], "north": lat > 0}, "start": st,
+        tr = {"cfg": {"e": cfgname[0], "p": cfgname[1], "north": lat >= 0}, "start": st,
               "lat": lat, "lon": lon, "ev": []}
         with warnings.catch_warnings():
             warnings.simplefilter("ignore")
